@@ -20,8 +20,13 @@ from ..langs import LANGS, corpus_files, lexer_for
 from ..tlaval import dump_chunks, parse, parse_state
 
 PROP = "C16"
-BOUNDS = {"quick": dict(N=5, synth=40, max_tokens=2500), "thorough": dict(N=6, synth=400, max_tokens=20000)}
+BOUNDS = {"quick": dict(N=4, synth=60, max_tokens=2500), "thorough": dict(N=5, synth=400, max_tokens=20000)}
 CH = {"n": "\n", "s": " ", "x": "x"}
+FF = ["\x0c", "\x0b", "\r", "\u2028", "\x85", "\x1c", "\u2029", "\x1e"]
+
+
+def render_text(chars):
+    return "".join(FF[i % len(FF)] if c == "f" else CH[c] for i, c in enumerate(chars))
 
 
 class StubLexer:
@@ -39,14 +44,14 @@ def replay_chunk(chunk):
     from codelimit.common.lexer_utils import lex
 
     st = parse_state(chunk)
-    text = "".join(CH[c] for c in st["text"])
+    text = render_text(st["text"])
     if st["pos"] != len(text):
         return None
     keep = bool(st["keep"])
     types = {"code": Name, "comment": Comment.Single}
     raw, exp = [], []
     for n, t in enumerate(st["toks"]):
-        val = "".join(CH[c] for c in t["txt"])
+        val = text[t["off"]:t["off"] + t["len"]]
         ty = types.get(t["cls"]) or (Text if n % 2 == 0 else Whitespace)
         raw.append((t["off"], ty, val))
         blank = val == "" or val.isspace()
@@ -98,7 +103,7 @@ def observe_real(arg):
 
 
 FRAGS = {
-    "common": ["\n", "\n\n", "  ", "\t", "x = 1", "foo(bar, 2)", "é = 'ü'", "\"a\\nb\"", "0x1F", " ", "\r\n", "名前 = 3"],
+    "common": ["\n", "\n\n", "  ", "\t", "x = 1", "foo(bar, 2)", "é = 'ü'", "\"a\\nb\"", "0x1F", " ", "\r\n", "名前 = 3", "\x0c", "\x0b", " \r ", "\u2028", "\x85", "\x1c", "\u2029", "a\x0cb", "'s\u2028t'"],
     "Python": ["def f(a):\n    return a\n", "# comment\n", "'''doc\nstring'''\n", "\"\"\"multi\nline\n\"\"\"", "x = \\\n  2\n", "class K:\n\tpass\n", "lambda q: q", "if a:\n  b\nelse:\n  c\n"],
     "brace": ["int f(int a) {\n  return a;\n}\n", "// line comment\n", "/* block\n comment */", "/** doc */\n", "if (a) {\n} else {\n}\n", "char *s = \"{\";", "'}'", "#include <x.h>\n", "a = b ? c : d;", "x => { return x; }\n",
               "`tpl ${a}\nline`", "function g() {\n}\n", "class K {\n  m() {}\n}\n"],
